@@ -79,11 +79,19 @@ def attr_chain(node) -> Optional[str]:
 
 
 def subst_single_assign(A: Analysis, func: FuncInfo, expr):
-    """If expr is a Name bound by exactly one plain assignment in func, return that value expression (else expr)."""
+    """If expr is a Name bound by exactly one plain assignment in func (or, for a free variable of a nested function,
+    in the enclosing function that binds it), return that value expression (else expr)."""
     seen = 0
     while isinstance(expr, ast.Name) and seen < 5:
-        defs = A.sym._local_defs(func).get(expr.id)
-        if not defs or len(defs) != 1 or defs[0][0] != 'assign' or expr.id in func.params:
+        f = func
+        defs = None
+        while f is not None:
+            d = A.sym._local_defs(f).get(expr.id)
+            if d or expr.id in f.params:
+                defs = d if expr.id not in f.params else None
+                break
+            f = f.parent
+        if not defs or len(defs) != 1 or defs[0][0] != 'assign':
             break
         expr = defs[0][1]
         seen += 1
